@@ -1,5 +1,6 @@
 import SamlModel.Generated.FnDriver
 import SamlModel.Model.ChkDriver
+import SamlModel.Model.SsoDriver
 import SamlModel.Exec.C16
 /-! Driver.step: dispatch of one protocol line.  Unknown or unparsable ops yield `bad-op`. -/
 namespace Driver
@@ -10,6 +11,7 @@ def step (line : String) : String :=
     match Gen.fnDispatch name args with
     | some toks => " ".intercalate toks
     | none => "bad-op"
+  | "sso" :: args => (SsoDriver.run args).getD "bad-op"
   | "chk" :: args => (ChkDriver.run args).getD "bad-op"
   | _ => "bad-op"
 
